@@ -218,7 +218,6 @@ Proof.
     destruct (q_mode q); destruct (src_next e (c_sh c)) as [xv|].
     all: try (apply Hg; [right; eauto|reflexivity|reflexivity]).
     all: try (destruct (N.of_nat (length (xv :: got)) =? q_n q); (apply Hg; [right; eauto|reflexivity|reflexivity])).
-    destruct got; (apply Hg; [right; eauto|reflexivity|reflexivity]).
   - (* raising the flag at the end of the source *)
     rewrite (istep_setf e c t q b got Hpc).
     assert (Hg : forall ts' evs, (forall q0 b0 g0, t_pc ts' <> PSrc q0 b0 g0) ->
